@@ -553,12 +553,10 @@ fn ref_node(c: &Cfg, t: &Ty, n: &BNode) -> Option<R> {
     }
     match n {
         BNode::Leaf(l) => {
-            // a `u16` request on a token id in VALUE position: the sequential paths' `deserialize_u16` shortcut hands
-            // over the raw id (resolver not consulted), the tape's ValueDeserializer forwards to deserialize_any and
-            // goes through the resolver (-> a string -> type error): candidate finding u16-on-token-id.  The
-            // reference is the property's reading ("token ids through the resolver", what the tape path does); the
-            // case is flagged so that only the SEQUENTIAL paths' disagreement is reported, under that kind.
-            if let (Ty::U16, BLeaf::Id(_)) = (t, l) { U16_ON_ID.with(|f| f.set(true)); }
+            // a `u16` request on a token id in VALUE position: all three paths hand over the raw id without consulting
+            // the resolver (`deserialize_u16` shortcut; the tape path's ValueDeserializer has it since /repo 4ab9b0c,
+            // former finding u16-on-token-id).  The case is flagged so that the run counts it as a regression probe.
+            if let (Ty::U16, BLeaf::Id(n)) = (t, l) { U16_ON_ID.with(|f| f.set(true)); return Some(accept(t, &Prim::U16(*n))); }
             let p = match leaf_prim(c, l) { Ok(p) => p, Err(e) => return Some(Err(e)) };
             Some(accept(t, &p))
         }
@@ -661,10 +659,12 @@ pub fn value_and_kind(c: &Cfg, ty: &RootTy, d: &BDoc) -> (Option<String>, Option
     // a document that STARTS with a ghost object is refused by the tape parser by design (tape.rs `open_empty_err`),
     // while both sequential deserializers skip it
     let kind = if d.fields.first().map(|f| f.ghosts > 0).unwrap_or(false) { Some("leading-ghost-root") }
-        else if RGB_IN_ARRAY.with(|f| f.get()) { Some("rgb-in-array") }
-        else if U16_ON_ID.with(|f| f.get()) { Some("u16-on-token-id") } else { None };
+        else if RGB_IN_ARRAY.with(|f| f.get()) { Some("rgb-in-array") } else { None };
     (v, kind)
 }
+
+/// did the last `value_and_kind` meet a `u16` target on a token id in value position (repaired finding)?
+pub fn met_u16_on_id() -> bool { U16_ON_ID.with(|f| f.get()) }
 
 pub fn value_of_bin(c: &Cfg, ty: &RootTy, d: &BDoc) -> Option<String> {
     let r = match ty {
@@ -896,11 +896,14 @@ pub fn exec(w: &[&str], obs: &mut Obs) -> Option<String> {
             // L3: the three real paths against the reference and each other, both resolver kinds, several buffers
             let (raw, big) = raw_tokens(&data);
             let need = max_token_len(&raw, big);
+            let u16_probe = met_u16_on_id();
+            let mismatches = std::cell::Cell::new(0usize);
             let mut check = |name: &str, got: String, obs: &mut Obs| {
                 if got != expect {
-                    // probes of the known findings: only the path(s) the finding is about may disagree, under its kind (tape for rgb-in-array / leading-ghost-root, the sequential paths for u16-on-token-id)
+                    mismatches.set(mismatches.get() + 1);
+                    // probes of the known findings: only the tape path may disagree, under the finding's kind (rgb-in-array / leading-ghost-root)
                     match kind {
-                        Some(k) if (k == "u16-on-token-id") != (name == "tape") => { obs.violation(k, &case(), &format!("{} gives {} reference {}", name, got, expect)); }
+                        Some(k) if name == "tape" => { obs.violation(k, &case(), &format!("{} gives {} reference {}", name, got, expect)); }
                         _ => { obs.violation(&format!("c04-{}-ne-reference", name), &case(), &format!("{} gives {} reference {}", name, got, expect)); }
                     }
                 }
@@ -913,6 +916,8 @@ pub fn exec(w: &[&str], obs: &mut Obs) -> Option<String> {
             }
             check("stream-tight", run_stream(&c, &ty, &data, need, vec![sched::Step::Repeat(1)]), obs);
             check("stream-mid", run_stream(&c, &ty, &data, need + 5, vec![sched::Step::Repeat(3)]), obs);
+            drop(check);
+            if u16_probe && kind.is_none() && mismatches.get() == 0 { obs.count("probe:u16-on-token-id-repaired:paths-agree"); }
             obs.count(&format!("spec:{}", res_kind(&expect)));
             features(&d.fields, 0, obs);
             match &ty { RootTy::Tok(_) => obs.count("rootty:token-struct"), RootTy::Plain(Ty::Map(_)) => obs.count("rootty:map"), RootTy::Plain(Ty::Struct(_)) => obs.count("rootty:struct"), _ => obs.count("rootty:other") }
@@ -1181,6 +1186,7 @@ pub fn gen(g: &mut Gen) {
             } else if fits {
                 g.emit(format!("bde_spec {} {} {}", show_cfg(&c), show_root(&ty), bds));
                 g.count("wellformed:fitting-type");
+                if met_u16_on_id() { g.count("probe:u16-on-token-id-repaired"); }
             } else { g.count("wellformed:no-claim-type"); }
             let (raw, _) = raw_tokens(&data);
             emit_paths(g, &c, &ty, &data, fits || slice_token_level(&raw));
@@ -1214,7 +1220,7 @@ pub fn gen(g: &mut Gen) {
         if val.is_some() {
             match kind {
                 Some(k) => { let key = format!("probe:{}", k); if g.hist.get(&key).copied().unwrap_or(0) < 15 { g.emit(format!("bde_spec {} {} {}", show_cfg(&c), show_root(&ty), show_bdoc(&bd))); g.count(&key); } }
-                None => { g.emit(format!("bde_spec {} {} {}", show_cfg(&c), show_root(&ty), show_bdoc(&bd))); g.count("narrow:claimed"); }
+                None => { g.emit(format!("bde_spec {} {} {}", show_cfg(&c), show_root(&ty), show_bdoc(&bd))); g.count("narrow:claimed"); if met_u16_on_id() { g.count("probe:u16-on-token-id-repaired"); } }
             }
         } else { g.count("narrow:no-claim"); }
         emit_paths(g, &c, &ty, &render_bdoc(&bd), true);
